@@ -111,9 +111,11 @@ class Recorder:
             raise HarnessError('run_case raised outside mido: %r\ncase=%s\n%s' % (
                 exc, canon(case)[:500], ''.join(traceback.format_exception(exc)))) from exc
 
-    def run(self, case, nontrivial=None, classes=(), distinct=False, sample=True):
-        """Execute one case; returns the list of failures not covered by a known finding."""
-        failures = self.execute(case)
+    def run(self, case, nontrivial=None, classes=(), distinct=False, sample=True, failures=None):
+        """Execute one case; returns the list of failures not covered by a known finding.
+        `failures` may carry the result of an execution the caller has already done."""
+        if failures is None:
+            failures = self.execute(case)
         self.evals += 1
         if nontrivial is None:
             ntf = getattr(self.mod, 'nontrivial', None)
